@@ -7,7 +7,7 @@ for d in sorted(glob.glob(os.path.join(V, "seeded", "C*-*")), key=lambda s: (os.
     m = json.load(open(os.path.join(d, "meta.json")))
     rows.append(m)
 esc = lambda s: str(s).replace("|", "\\|").replace("\n", " ")
-caught = sum(1 for m in rows if m.get("first_attempt") == "CAUGHT")
+caught = sum(1 for m in rows if str(m.get("first_attempt", "")).startswith("CAUGHT"))
 out = ["# Seeded breaking changes", "",
        "Each directory holds an independently written change to openapi-python-client that breaks one property while compiling and passing the pinned suite (`patch.diff`), a demonstration that fails with the change and passes without it (`demo.py`), the author's notes (`notes.md`) and `meta.json` (what it needs in order to manifest, what was run, which check class catches it, and whether the checks had to be strengthened). Ids `-1..-3` are round 1, `-4..-6` round 2, `-7..-9` round 3, `-10..-12` round 4, `-13..-14` round 5 (later authors were told the earlier mechanisms and asked for different ones). None of these changes is ever committed to /repo; `tools/tryseeded.sh <patch> <PROP> <budget> <seed>` runs a check against a scratch copy with the change applied, `tools/sweep_seeded.sh` does so for all of them. Two old patches (C03-3, C06-2) no longer apply to the current tree because later `fix:` commits rewrote the lines they touch.",
        "", "| id | breaks | needs | first attempt | caught by |", "|----|--------|-------|---------------|-----------|"]
